@@ -3,6 +3,7 @@ pub mod gens;
 pub mod c01;
 pub mod c01_comp;
 pub mod c02;
+pub mod c03;
 pub mod c04;
 pub mod rxgen;
 pub mod c05;
@@ -22,7 +23,7 @@ pub mod c16;
 use crate::engine::{Ctx, Tier};
 use serde_json::Value;
 
-pub const ALL: &[&str] = &["C01", "C02", "C04", "C05", "C06", "C07", "C09", "C11", "C15", "C16", "C17", "C18", "C19"];
+pub const ALL: &[&str] = &["C01", "C02", "C03", "C04", "C05", "C06", "C07", "C09", "C11", "C15", "C16", "C17", "C18", "C19"];
 
 pub fn run(id: &str, tier: Tier, seed: u64) -> Option<i32> {
     macro_rules! go {
@@ -35,6 +36,7 @@ pub fn run(id: &str, tier: Tier, seed: u64) -> Option<i32> {
     match id {
         "C01" => go!(c01, "C01"),
         "C02" => go!(c02, "C02"),
+        "C03" => go!(c03, "C03"),
         "C04" => go!(c04, "C04"),
         "C05" => go!(c05, "C05"),
         "C06" => go!(c06, "C06"),
@@ -54,6 +56,7 @@ pub fn replay(id: &str, v: &Value) -> Option<i32> {
     match id {
         "C01" => c01::replay(v),
         "C02" => c02::replay(v),
+        "C03" => c03::replay(v),
         "C04" => c04::replay(v),
         "C05" => c05::replay(v),
         "C06" => c06::replay(v),
